@@ -283,7 +283,13 @@ def run(ctx):
         b = ctx.body(fn)
         site = b.call_blocks(ast_)
         def lt_vocab(e):
-            return e[0] == "bin" and e[1] == "Lt" and "vocab_size" in repr(e[3]) and "RangeInclusive::<Idx>::end" in repr(e[2])
+            if not (e[0] == "bin" and "RangeInclusive::<Idx>::end" in repr(e[2]) and "vocab_size" in repr(e[3])):
+                return False
+            if e[1] == "Lt":
+                return True
+            # `end <= vocab_size - 1` is the same test
+            r_ = L.strip_wrappers(e[3])
+            return e[1] == "Le" and r_[0] == "bin" and r_[1] == "Sub" and r_[3][0] == "const" and r_[3][1] == 1
         g = L.guard_edges(b, lt_vocab, True)
         # when no tokenizer is available the check is skipped (documented warning): the `trie is None` arm
         none_edges = []
@@ -336,3 +342,41 @@ def run(ctx):
                 found = True
     ctx.check(found, "C19-R4", "token-range-regex:shape", "the marker regex is 0xFF followed by \\[[0-9]+\\]",
               "the special-token regex literal `\\[[0-9]+\\]` was not found in add_lexeme_spec", site=als.where())
+    # ---- the complement sweep of <[^...]> is monotone: ranges are sorted by start only, so a range nested in an earlier one
+    # must not move the sweep position backwards — every in-loop assignment of the position is max(position, end + 1), or is
+    # made only where `end >= position` is known (the "already covered" skip)
+    nb_ = ctx.body(GB + "::negated_token_ranges")
+    pos = None
+    for l_ in range(nb_.argc + 1, len(nb_.locals)):
+        if nb_.locals[l_].get("n") and len([d for d in nb_.defs().get(l_, []) if d[2] in ("assign", "call")]) >= 2 and nb_.local_ty(l_) == "u32":
+            # the sweep position is the u32 local that is both compared with a range start and re-assigned in the loop
+            uses = [1 for sb, e, tg, ow in nb_.switch_edges() if e[0] == "bin" and any(x[0] in ("local",) and x[1] == l_ for x in (L.strip_wrappers(e[2]), L.strip_wrappers(e[3])))]
+            if uses:
+                pos = l_
+    if pos is None:
+        ctx.info("C19-R4", "negated_token_ranges: sweep position not recognised (not judged)")
+    else:
+        defs = [(bi, k, p) for (bi, si, k, p) in nb_.defs().get(pos, []) if k in ("assign", "call")]
+        first = min(bi for bi, _, _ in defs)
+        is_pos = lambda x: (x[0] == "local" and x[1] == pos) or (x[0] == "place" and x[1] == [pos])
+        covered = L.guard_edges_multi(nb_, [
+            (lambda e: e[0] == "bin" and e[1] == "Lt" and is_pos(L.strip_wrappers(e[3])), False),   # !(end < current)
+            (lambda e: e[0] == "bin" and e[1] == "Ge" and is_pos(L.strip_wrappers(e[3])), True),
+            (lambda e: e[0] == "bin" and e[1] == "Gt" and is_pos(L.strip_wrappers(e[2])), False),
+            (lambda e: e[0] == "bin" and e[1] == "Le" and is_pos(L.strip_wrappers(e[2])), True)])
+        bad = []
+        for bi, k, p in defs:
+            if bi == first:
+                continue
+            if k == "call":
+                d_ = p["f"].get("def", "")
+                if d_.rsplit("::", 1)[-1] == "max" and any(is_pos(L.strip_wrappers(nb_.expr(a))) for a in p["args"]):
+                    continue
+            if covered and not L.dominated_by_cut(nb_, [bi], covered):
+                continue
+            bad.append(bi)
+        ctx.check(not bad, "C19-R4", "negated_token_ranges:sweep-is-monotone",
+                  "the sweep position only moves forward (max(position, end + 1), or assigned under end >= position)",
+                  "negated_token_ranges can move its sweep position backwards (`current = end + 1` for a range nested in an earlier one): the tail of the "
+                  "outer range is emitted as allowed — <[^258-263,260]> allows 261..263", site=nb_.where(bad[0]) if bad else nb_.where())
+
